@@ -101,10 +101,12 @@ def draw_structure(rng):
             return {"date": ["2020-01-01", rng.choice([1, 2, 30, "2020-03-01"])],
                     "js": rng.random() < 0.5, "p": p}
         if r < 0.78:
-            return {"value": rng.choice(["v", 42]), "p": rng.choice([0.0, 0.3, 0.7, 1.0])}
+            return {"value": rng.choice(["v", 42, 0, False, "", "i{idx}", "h{hier_idx}"]),
+                    "p": rng.choice([0.0, 0.3, 0.7, 1.0])}
         if r < 0.86:
             return {"sparse": True, "p": rng.choice([0.0, 0.2, 0.8, 1.0])}
-        vals = rng.sample(["a", "b", "c", "d", 1, 2, 0, False, ""], rng.randint(1, 4))
+        vals = rng.sample(["a", "b", "c", "d", 1, 2, 0, False, "", "s{idx}", "p{hier_idx}"],
+                          rng.randint(1, 4))
         counts = None
         if rng.random() < 0.4:
             counts = [rng.choice([0, 1, 3]) for _ in vals]
@@ -266,14 +268,18 @@ def check_value(name, a, val, present, macros, fail):
             if not isinstance(val, date) or not (lo <= val <= hi):
                 fail("attr-date", f"{name}={val!r} outside {lo}..{hi}")
     elif "value" in a:
-        if val != a["value"]:
-            fail("attr-value", f"{name}={val!r}, declared value {a['value']!r}")
+        exp = a["value"]
+        if isinstance(exp, str):
+            exp = exp.format(**macros)  # macros are expanded in generated strings as well
+        if val != exp or type(val) is not type(exp):
+            fail("attr-value", f"{name}={val!r}, declared value {exp!r}")
     elif "sparse" in a:
         if val is not True:
             fail("attr-sparse", f"{name}={val!r}, a sparse bool is True or absent")
     elif "sample" in a:
-        allowed = [v for v, c in zip(a["sample"], a["counts"] or [1] * len(a["sample"])) if c > 0]
-        if val not in allowed:
+        allowed = [v.format(**macros) if isinstance(v, str) else v
+                   for v, c in zip(a["sample"], a["counts"] or [1] * len(a["sample"])) if c > 0]
+        if not any(val == v and type(val) is type(v) for v in allowed):
             fail("attr-sample", f"{name}={val!r} not in the declared sample {allowed!r}")
 
 
